@@ -2,7 +2,7 @@
 # tools/sweep.sh <tier> <seed> [checks...]   -- runs the checks one after another, prints their last lines
 tier=$1; seed=$2; shift 2
 checks=${@:-C01 C02 C03 C04 C05 C06 C07 C08 C09 C10 C11 C12 C13 C14 C15 C16 C17 C18 C19 C20}
-cd "$(dirname "$0")/.."
+cd "$(dirname "$0")/.."; mkdir -p .work evidence replays
 for c in $checks; do
   VERIF_SEED=$seed ./check $c --tier $tier > .work/sweep-$c-$tier-$seed.log 2>&1
   rc=$?
